@@ -62,9 +62,15 @@ def gen(rng, k):
     path = rng.choice(["/", "/a", "/a/b", "/a%20b", "/p?q=1", "/p?q=a%26b&r=2"])
     headers = []
     for i in range(rng.choice([0, 1, 2, 3])):
-        headers.append([rng.choice(["X-A", "x-b", "Accept", "X-Long-Name", "Cookie", "Host", "User-Agent", "Accept-Encoding", "Content-Type"]), rng.choice(["v", "some value", "a, b", "text/plain; charset=utf-8", ""])])
+        name = rng.choice(["X-A", "x-b", "Accept", "X-Long-Name", "Cookie", "Host", "User-Agent", "Accept-Encoding", "Content-Type", "Host", "User-Agent", "Accept-Encoding"])
+        name = rng.choice([name, name, name.lower(), name.upper(), name.swapcase()])
+        val = rng.choice(["v", "some value", "a, b", "text/plain; charset=utf-8", ""])
+        if name.lower() == "host" and rng.random() < 0.7:
+            val = rng.choice(["h.test", "other.test", "h.test:80"])
+        headers.append([name, val])
     if rng.random() < 0.1:
-        headers.append([rng.choice(["Host", "Accept-Encoding", "User-Agent"]), SKIP])
+        name = rng.choice(["Host", "Accept-Encoding", "User-Agent"])
+        headers.append([rng.choice([name, name.lower(), name.upper()]), SKIP])
     if rng.random() < 0.05:
         headers.append(["X-Other", SKIP])
     body = None
@@ -213,14 +219,14 @@ def check_request(sc, req, res, entry):
         if ckb is None or cvb is None:
             res.bad("header_missing_or_altered", f"non-latin-1 field {ck!r}: {cv!r} was accepted; wire fields {got!r}")
             return
-        want_by_name.setdefault(ckb, []).append(HW.unfold(cvb))
+        want_by_name.setdefault(ckb.lower(), []).append(HW.unfold(cvb))  # field names are case-insensitive
         if b"\r" in cvb or b"\n" in cvb:
             res.probes["obs_fold_roundtrip"] += 1
     got_by_name: dict = {}
     extras = []
     for name, value in got:
-        if name in want_by_name:
-            got_by_name.setdefault(name, []).append(HW.unfold(value))
+        if name.lower() in want_by_name:
+            got_by_name.setdefault(name.lower(), []).append(HW.unfold(value))
         else:
             extras.append((name, value))
     for name, vals in want_by_name.items():
